@@ -716,6 +716,9 @@ def strat_point_units():
              "query_m": list(ru.M_REPS[imq]) if which[2] else None}
         if not (which[0] or which[1] or which[2]):
             d["query_p"] = list(_P_WEIGHTED[iq])
+        if which[1] and not which[2] and ilq % 3 == 0:
+            # the two unit-less loading bases, asked for the ordinary way: the basis alone (no unit goes with it)
+            d["query_l"] = [["fraction", None], ["percent", None]][(ilq // 3) % 2]
         return d
 
     nP = len(_P_WEIGHTED)
